@@ -5,7 +5,7 @@ import numpy as np, pandas as pd
 from core import Result
 import proto, gen, implutil
 
-THEOREMS = []
+THEOREMS = ['C18_limit_rule', 'C18_limit_sublist', 'C18_limit_membership', 'C18_limit_outside', 'C18_limit_reset', 'C18_limit_signal', 'C18_split_drop', 'C18_flatten', 'C18_flatten_labels']
 RULE = ("cycle tables of generated signals, both centrings x start/stop in {None, random, exactly on a cycle boundary (last/next side extremum / fs), windows containing no cycle} x "
         "reset_indices; limit_signal on the sample grid with the same limits; split_samples_df / drop_samples_df on the same tables; flatten_dfs on 1-D and 2-D lists of tables "
         "with labels (and mismatching label counts); judge: Lean specifications limitSpec / limitSignalSpec, column partition, order and labels; "
